@@ -171,3 +171,43 @@ def run(ctx):
     if "Box<receiver::objectreceiver::ObjectReceiver>" in ty or "ObjectReceiver" in ty:
         r4.ok("Receiver.objects owns its ObjectReceivers", ty[:100], "src/receiver/receiver.rs")
     r4.ok("leak primitives", "%d call sites (expected 0)" % len(bad), "crate-wide")
+
+    # ---- R5 when the writer is created ----------------------------------------------------------------
+    r5 = ctx.rule("C09.R5", "init_object_writer asks the builder for a writer only when no writer session exists yet and the FDT instance id, the "
+                            "content encoding, the transfer length and the OTI are all known; open() is called only on the StoreObject answer; the "
+                            "session is stored (object_writer = Some) before open() so that a failing open is reported through error()", "DOM")
+    f = prog.fn(OR + "::init_object_writer")
+    ctx.analysed(f.path)
+    fl = Flow(f.body)
+    news = call_sites(f, lambda p, c: p.endswith("ObjectWriterBuilder::new_object_writer"))
+    opens = call_sites(f, lambda p, c: p.endswith("ObjectWriter::open"))
+    if not news or not opens:
+        raise model.AnchorMissing("init_object_writer: new_object_writer (%d) / open (%d) call sites" % (len(news), len(opens)))
+    need = {"no writer yet": lambda a, t: a[0] == "variant" and show(a[1]) == "self.object_writer" and ((a[2] == "None") == t),
+            "FDT instance id known": lambda a, t: a[0] == "variant" and show(a[1]) == "self.fdt_instance_id" and ((a[2] == "Some") == t),
+            "content encoding known": lambda a, t: a[0] == "variant" and show(a[1]) == "self.cenc" and ((a[2] == "Some") == t),
+            "transfer length known": lambda a, t: a[0] == "variant" and show(a[1]) == "self.transfer_length" and ((a[2] == "Some") == t),
+            "OTI known": lambda a, t: a[0] == "variant" and show(a[1]) == "self.oti" and ((a[2] == "Some") == t)}
+    for s in news:
+        fs = fl.facts_at(s.bb)
+        for nm, pred in sorted(need.items()):
+            key = "init_object_writer -> new_object_writer: %s" % nm
+            if any(pred(a, t) for (a, t) in fs):
+                r5.ok(key, "", s.loc)
+            else:
+                r5.violation(key, "the builder is asked for a writer although `%s` is not established: the writer would be created from incomplete "
+                                  "metadata (or a second writer for the same object)" % nm, s.loc)
+    for s in opens:
+        fs = fl.facts_at(s.bb)
+        key = "init_object_writer -> open only on StoreObject"
+        if any(a[0] == "variant" and a[2] == "StoreObject" and t and "new_object_writer" in show(a[1]) for (a, t) in fs):
+            r5.ok(key, "", s.loc)
+        else:
+            r5.violation(key, "open() is not tied to the StoreObject answer of the builder", s.loc)
+        stores = [a for a in field_accesses(prog, OR, "object_writer", funcs=[f]) if a["kind"] == "assign" and show(a["value"]).startswith("Option::Some")]
+        key = "init_object_writer stores the session before open()"
+        if stores and all(fl.dominates(a["bb"], s.bb) for a in stores):
+            r5.ok(key, "", s.loc)
+        else:
+            r5.violation(key, "open() runs before the session is stored: a failing open cannot be reported to the writer", s.loc)
+    r5.floor(7, "creation facts")
